@@ -105,7 +105,8 @@ Record rrec := {
   rok : bool;                         (* every awaited object was complete (word kResult, Result constructed) at that moment *)
   rval : option (option res);         (* consuming forms: what await_resume read (Some None: garbage) *)
   rexec : nat;                        (* promise._executor afterwards (what CurrentExecutor() answers) *)
-  rown : nat                          (* promise._executor when the co_await began *)
+  rown : nat;                         (* promise._executor when the co_await began *)
+  rlive : bool                        (* the body had not ended (returned, thrown, been dropped) *)
 }.
 
 Record coro := {
@@ -401,7 +402,8 @@ Definition finish_await (t c : nat) (h : how) (s : st) : option st :=
                    | None => None
                    end in
           let r := {| rk := pc co; rhow := h; rthr := t; rok := forallb (ocomplete (objs s)) (aobjs a); rval := v;
-                      rexec := cexec co; rown := cown0 co |} in
+                      rexec := cexec co; rown := cown0 co;
+                      rlive := match cend co with Running => true | _ => false end |} in
           match aconsume a, match v with Some x => is_err x | None => None end with
           | Some (_, false), Some e =>
               (* await_resume throws, nothing catches: unhandled_exception stores it, final_suspend is next *)
